@@ -1,5 +1,6 @@
 """C01 - items, then at most one terminal, then nothing: pipelines as trees."""
 from common import *
+import tchain
 import gen
 
 OP2 = ["merge", "zip", "(combine_latest add)", "(combine_latest fst)", "with_latest_from", "take_until", "skip_until", "sample", "buffer"]
@@ -87,7 +88,7 @@ def run(tier, seed, replay=None):
     proof_stage(rep, "C01")
     if not build_stage(rep):
         return rep.finish()
-    cases = load_replay_case(replay) if replay else cases_for(tier, rng)
+    cases = load_replay_case(replay) if replay else cases_for(tier, rng) + tchain.cases(tier, rng)
     correspond(rep, "C01", cases, "C01_pipeline_grammar / C01_two_inputs_any_timeline / C01_closure_idiom")
     c = rep.coverage
     hist = {}
@@ -101,8 +102,8 @@ def run(tier, seed, replay=None):
                  "3-12 calls on the subjects per case, 34%% of them terminals, so that calls after an input's own terminal and several terminals are "
                  "the rule; observed by the recording probe and by the closure idiom .on_error(f).on_complete(g).subscribe(h); judged by the grammar "
                  "predicate wf on the implementation's own trace and compared with the model's execution of the same tree; plus every two-input "
-                 "operator over all pairs of 8 small subtrees; local and _threads forms" % (3 if tier == "quick" else 4, len(UOPS)))
-    rep.assumptions = ["flattening operators, group_by, subjects and scheduler-using operators are leaves of this check: their own grammar is decided by "
-                       "C01_flattening / C01_groups here and by the C05 / C20 / C06 / C07-C09 correspondences",
+                 "operator over all pairs of 8 small subtrees; local and _threads forms" % (3 if tier == "quick" else 4, len(UOPS))) + "; and " + tchain.RULE
+    rep.assumptions = ["flattening operators, group_by and subjects are leaves of this check: their own grammar is decided by C01_flattening / C01_groups "
+                       "here and by the C05 / C20 / C06 correspondences; scheduler-using operators are composed with one operator on either side",
                        "user callbacks do not re-enter the pipeline"]
     return rep.finish()
